@@ -175,11 +175,19 @@ def rr_unit(u):
                 answers[:] = list(script)
                 st.evaluations += 1
                 L0 = RR_LISTS[hist[0]]
-                p = ap.RoundRobinPartitioner("t", list(L0))
                 picks = []
-                for li in hist:
-                    L = RR_LISTS[li]
-                    picks.append(p.partition(None, list(L)))
+                if u.get("inplace"):
+                    # the caller owns one list object and updates it in place when the topic changes
+                    shared = list(L0)
+                    p = ap.RoundRobinPartitioner("t", shared)
+                    for li in hist:
+                        shared[:] = RR_LISTS[li]
+                        picks.append(p.partition(None, shared))
+                else:
+                    p = ap.RoundRobinPartitioner("t", list(L0))
+                    for li in hist:
+                        L = RR_LISTS[li]
+                        picks.append(p.partition(None, list(L)))
                 # oracle: split into maximal runs with an unchanged list
                 i = 0
                 nchanges = 0
@@ -208,7 +216,8 @@ def rr_unit(u):
                             "random-start" if random_start else "fixed-start"),
                         "message": "%s; lists chosen %r, randint answers %r, picks %r" % (
                             bad, [RR_LISTS[x] for x in hist], script, picks),
-                        "input": {"hist": list(hist), "script": script, "random_start": random_start},
+                        "input": {"hist": list(hist), "script": script, "random_start": random_start,
+                                  "inplace": bool(u.get("inplace"))},
                         "check": "checks.C18:replay_rr"})
                     if len(st.violations) > 5:
                         return st
@@ -290,7 +299,8 @@ def replay(v):
         ensure_jvm()
         return [x for x in insitu_unit(inp["insitu"]).violations if x["signature"] == v["signature"]][:1]
     if "hist" in inp:
-        st = rr_unit({"first": inp["hist"][0], "depth": len(inp["hist"]), "random_start": inp["random_start"]})
+        st = rr_unit({"first": inp["hist"][0], "depth": len(inp["hist"]), "random_start": inp["random_start"],
+                      "inplace": inp.get("inplace", False)})
         return [x for x in st.violations if x["signature"] == v["signature"]][:1]
     from afkak.partitioner import HashedPartitioner, pure_murmur2
     key = bytes.fromhex(inp["key"])
@@ -336,6 +346,8 @@ def run(tier, seed, only=None):
         depth = 8 if tier == "quick" else 10
         units = [{"first": f, "depth": depth, "random_start": rs} for f in range(len(RR_LISTS))
                  for rs in (False, True)]
+        units += [{"first": f, "depth": depth - 2, "random_start": rs, "inplace": True}
+                  for f in range(len(RR_LISTS)) for rs in (False, True)]
         if tier == "thorough":
             units += [{"first": f, "depth": 12, "random_start": False} for f in range(len(RR_LISTS))]
         st = enum.run_units("checks.C18:rr_unit", units, seed)
@@ -349,7 +361,7 @@ def run(tier, seed, only=None):
         "hash: every key of length 0..%d over the byte alphabet %s (shorter first) plus 177 long keys (len 9..67) "
         "and 781 text keys, pure_murmur2 and HashedPartitioner.partition compared with Kafka's Utils.murmur2 run on "
         "the JVM; rr: every sequence of partition() calls of the stated depth over the lists %r with every pair of "
-        "randint answers when randomStart is on; in situ: the real Producer+KafkaClient on the virtual cluster with 1/2/3/5 "
+        "randint answers when randomStart is on, the lists passed as fresh objects and (2 calls shorter) as one list object updated in place; in situ: the real Producer+KafkaClient on the virtual cluster with 1/2/3/5 "
         "partitions listed by the broker in ascending, reverse and rotated order, batched and unbatched, round-robin (with sends to a second topic interleaved) and hashed.  Distinct non-trivial = distinct (len%%4, first byte, last byte, "
         "hash low bits) classes for keys, distinct histories containing at least one list change for round robin."
         % (maxlen, ALPHA.hex(), RR_LISTS))
